@@ -1999,6 +1999,10 @@ class ExpressionEvaluator(Parser):
                     value = value[: -len(s)]
                     break
 
+            # A leading zero (without a base prefix) denotes an octal literal
+            if base == 10 and len(value) > 1 and value[0] == "0":
+                base = 8
+
             # Convert to decimal and then to integer with correct sign
             # Preprocessor always uses 64-bit arithmetic!
             int_value = int(value, base)
